@@ -30,7 +30,9 @@ use dropshot::HttpResponseUpdatedNoContent;
 use dropshot::Path;
 use dropshot::Query;
 use dropshot::RequestContext;
+use dropshot::MultipartBody;
 use dropshot::TypedBody;
+use dropshot::UntypedBody;
 use dsharness::server::*;
 use dsharness::util::*;
 use schemars::JsonSchema;
@@ -366,6 +368,112 @@ struct FlatNum {
 }
 desc_struct!(FlatNum { "own" => u8, false; "fx" => u16, false; "fy" => Option<bool>, false });
 
+// untagged enums with structurally overlapping variants
+#[derive(Serialize, Deserialize, JsonSchema, Clone, Debug)]
+#[serde(untagged)]
+enum Shape {
+    Plain { value: u32 },
+    Labeled { value: u32, label: String },
+}
+impl TyDesc for Shape {
+    fn ty() -> Value {
+        json!({"untagged": [
+            {"struct": [["value", u32::ty(), false]]},
+            {"struct": [["value", u32::ty(), false], ["label", String::ty(), false]]}]})
+    }
+}
+impl Samples for Shape {
+    fn samples() -> Vec<Self> {
+        vec![Shape::Plain { value: 1 }, Shape::Labeled { value: 2, label: "two".into() }]
+    }
+}
+/// one variant is a subset of the other through an `Option` member
+#[derive(Serialize, Deserialize, JsonSchema, Clone, Debug)]
+#[serde(untagged)]
+enum Sub {
+    Full { x: u8, y: Option<String> },
+    Bare { x: u8 },
+}
+impl TyDesc for Sub {
+    fn ty() -> Value {
+        json!({"untagged": [
+            {"struct": [["x", u8::ty(), false], ["y", <Option<String>>::ty(), false]]},
+            {"struct": [["x", u8::ty(), false]]}]})
+    }
+}
+impl Samples for Sub {
+    fn samples() -> Vec<Self> {
+        vec![Sub::Bare { x: 3 }, Sub::Full { x: 4, y: None }, Sub::Full { x: 5, y: Some("y".into()) }]
+    }
+}
+#[derive(Serialize, Deserialize, JsonSchema, Clone, Debug)]
+#[serde(untagged)]
+enum NumOrStr {
+    N(u32),
+    Big(u64),
+    S(String),
+}
+impl TyDesc for NumOrStr {
+    fn ty() -> Value {
+        json!({"untagged": [u32::ty(), u64::ty(), String::ty()]})
+    }
+}
+impl Samples for NumOrStr {
+    fn samples() -> Vec<Self> {
+        vec![NumOrStr::N(5), NumOrStr::Big(u64::MAX), NumOrStr::S("s".into())]
+    }
+}
+// tagged enums (documented as oneOf): responses only, no Ty description
+#[derive(Serialize, JsonSchema, Clone, Debug)]
+enum External {
+    A(u32),
+    B { x: String },
+    C,
+}
+impl Samples for External {
+    fn samples() -> Vec<Self> {
+        vec![External::A(1), External::B { x: "x".into() }, External::C]
+    }
+}
+#[derive(Serialize, JsonSchema, Clone, Debug)]
+#[serde(tag = "type")]
+enum Internal {
+    A { x: u8 },
+    B { x: u8, y: String },
+    C,
+}
+impl Samples for Internal {
+    fn samples() -> Vec<Self> {
+        vec![Internal::A { x: 1 }, Internal::B { x: 1, y: "y".into() }, Internal::C]
+    }
+}
+#[derive(Serialize, JsonSchema, Clone, Debug)]
+#[serde(tag = "t", content = "c")]
+enum Adjacent {
+    A(u32),
+    B { y: bool },
+    C,
+}
+impl Samples for Adjacent {
+    fn samples() -> Vec<Self> {
+        vec![Adjacent::A(1), Adjacent::B { y: true }, Adjacent::C]
+    }
+}
+/// documented unit variants
+#[derive(Serialize, JsonSchema, Clone, Debug)]
+enum DocEnum {
+    /// first
+    A,
+    /// second
+    B,
+    C,
+}
+impl Samples for DocEnum {
+    fn samples() -> Vec<Self> {
+        vec![DocEnum::A, DocEnum::B, DocEnum::C]
+    }
+}
+
 // parameter structs
 #[derive(Serialize, Deserialize, JsonSchema, Clone, Debug)]
 struct SampleQ {
@@ -540,6 +648,105 @@ ep_body!(b_widths, "/b/widths", Widths);
 ep_body!(b_optinner, "/b/optinner", BOptInner);
 ep_body!(b_opts, "/b/opts", Opts);
 
+ep_sample!(ra_shape, "/ra/shape", Shape);
+ep_sample!(ra_sub, "/ra/sub", Sub);
+ep_sample!(ra_numorstr, "/ra/numorstr", NumOrStr);
+ep_sample!(ra_ext, "/ra/ext", External);
+ep_sample!(ra_int, "/ra/int", Internal);
+ep_sample!(ra_adj, "/ra/adj", Adjacent);
+ep_sample!(ra_docenum, "/ra/docenum", DocEnum);
+ep_body!(b_shape, "/b/shape", Shape);
+ep_body!(b_sub, "/b/sub", Sub);
+ep_body!(b_numorstr, "/b/numorstr", NumOrStr);
+
+// extractor tuples: every body extractor with one and with two other extractors
+#[endpoint { method = PUT, path = "/t/json/pb/{id}" }]
+async fn t_json_pb(_rq: Ctx, _p: Path<PU32>, b: TypedBody<Inner>) -> Result<HttpResponseOk<Inner>, HttpError> {
+    Ok(HttpResponseOk(b.into_inner()))
+}
+#[endpoint { method = POST, path = "/t/json/qb" }]
+async fn t_json_qb(_rq: Ctx, _q: Query<QVerbose>, b: TypedBody<Inner>) -> Result<HttpResponseOk<Inner>, HttpError> {
+    Ok(HttpResponseOk(b.into_inner()))
+}
+#[endpoint { method = PUT, path = "/t/json/pqb/{id}" }]
+async fn t_json_pqb(
+    _rq: Ctx,
+    _p: Path<PU32>,
+    _q: Query<QVerbose>,
+    b: TypedBody<Inner>,
+) -> Result<HttpResponseOk<Inner>, HttpError> {
+    Ok(HttpResponseOk(b.into_inner()))
+}
+#[endpoint { method = PUT, path = "/t/form/pb/{id}", content_type = "application/x-www-form-urlencoded" }]
+async fn t_form_pb(_rq: Ctx, _p: Path<PU32>, b: TypedBody<Form>) -> Result<HttpResponseOk<Form>, HttpError> {
+    Ok(HttpResponseOk(b.into_inner()))
+}
+#[endpoint { method = POST, path = "/t/form/qb", content_type = "application/x-www-form-urlencoded" }]
+async fn t_form_qb(_rq: Ctx, _q: Query<QVerbose>, b: TypedBody<Form>) -> Result<HttpResponseOk<Form>, HttpError> {
+    Ok(HttpResponseOk(b.into_inner()))
+}
+#[endpoint { method = PUT, path = "/t/form/pqb/{id}", content_type = "application/x-www-form-urlencoded" }]
+async fn t_form_pqb(
+    _rq: Ctx,
+    _p: Path<PU32>,
+    _q: Query<QVerbose>,
+    b: TypedBody<Form>,
+) -> Result<HttpResponseOk<Form>, HttpError> {
+    Ok(HttpResponseOk(b.into_inner()))
+}
+async fn count_fields(mut body: MultipartBody) -> Result<HttpResponseOk<u32>, HttpError> {
+    let mut n = 0u32;
+    loop {
+        match body.content.next_field().await {
+            Ok(Some(f)) => {
+                f.bytes().await.map_err(|e| HttpError::for_bad_request(None, e.to_string()))?;
+                n += 1;
+            }
+            Ok(None) => break,
+            Err(e) => return Err(HttpError::for_bad_request(None, e.to_string())),
+        }
+    }
+    Ok(HttpResponseOk(n))
+}
+#[endpoint { method = POST, path = "/t/multi/b" }]
+async fn t_multi_b(_rq: Ctx, b: MultipartBody) -> Result<HttpResponseOk<u32>, HttpError> {
+    count_fields(b).await
+}
+#[endpoint { method = PUT, path = "/t/multi/pb/{id}" }]
+async fn t_multi_pb(_rq: Ctx, _p: Path<PU32>, b: MultipartBody) -> Result<HttpResponseOk<u32>, HttpError> {
+    count_fields(b).await
+}
+#[endpoint { method = POST, path = "/t/multi/qb" }]
+async fn t_multi_qb(_rq: Ctx, _q: Query<QVerbose>, b: MultipartBody) -> Result<HttpResponseOk<u32>, HttpError> {
+    count_fields(b).await
+}
+#[endpoint { method = PUT, path = "/t/multi/pqb/{id}" }]
+async fn t_multi_pqb(
+    _rq: Ctx,
+    _p: Path<PU32>,
+    _q: Query<QVerbose>,
+    b: MultipartBody,
+) -> Result<HttpResponseOk<u32>, HttpError> {
+    count_fields(b).await
+}
+#[endpoint { method = POST, path = "/t/bytes/b" }]
+async fn t_bytes_b(_rq: Ctx, b: UntypedBody) -> Result<HttpResponseOk<u32>, HttpError> {
+    Ok(HttpResponseOk(b.as_bytes().len() as u32))
+}
+#[endpoint { method = PUT, path = "/t/bytes/pb/{id}" }]
+async fn t_bytes_pb(_rq: Ctx, _p: Path<PU32>, b: UntypedBody) -> Result<HttpResponseOk<u32>, HttpError> {
+    Ok(HttpResponseOk(b.as_bytes().len() as u32))
+}
+#[endpoint { method = PUT, path = "/t/bytes/pqb/{id}" }]
+async fn t_bytes_pqb(
+    _rq: Ctx,
+    _p: Path<PU32>,
+    _q: Query<QVerbose>,
+    b: UntypedBody,
+) -> Result<HttpResponseOk<u32>, HttpError> {
+    Ok(HttpResponseOk(b.as_bytes().len() as u32))
+}
+
 // other response kinds
 #[endpoint { method = POST, path = "/k/created" }]
 async fn k_created(_rq: Ctx, b: TypedBody<Inner>) -> Result<HttpResponseCreated<Inner>, HttpError> {
@@ -617,6 +824,25 @@ async fn c_all(
 #[endpoint { method = POST, path = "/b/form", content_type = "application/x-www-form-urlencoded" }]
 async fn b_form(_rq: Ctx, b: TypedBody<Form>) -> Result<HttpResponseOk<Form>, HttpError> {
     Ok(HttpResponseOk(b.into_inner()))
+}
+
+fn p() -> Option<Value> {
+    Some(PU32::ty())
+}
+fn q() -> Option<Value> {
+    Some(QVerbose::ty())
+}
+fn bj() -> Option<(Value, &'static str)> {
+    Some((Inner::ty(), "json"))
+}
+fn bf() -> Option<(Value, &'static str)> {
+    Some((Form::ty(), "form"))
+}
+/// endpoints whose body extractor is not `TypedBody` (no body type, fixed media type)
+fn raw(ct: &str, pt: Option<Value>, qt: Option<Value>) -> Value {
+    let mut v = d(pt, qt, None, Some(u32::ty()), "ok", None);
+    v["bodyCt"] = json!(ct);
+    v
 }
 
 fn build_api() -> (ApiDescription<()>, Vec<Ep>) {
@@ -709,6 +935,38 @@ fn build_api() -> (ApiDescription<()>, Vec<Ep>) {
     reg_body!(b_widths, "/b/widths", Widths);
     reg_body!(b_optinner, "/b/optinner", BOptInner);
     reg_body!(b_opts, "/b/opts", Opts);
+    reg_sample!(ra_shape, "/ra/shape", Shape);
+    reg_sample!(ra_sub, "/ra/sub", Sub);
+    reg_sample!(ra_numorstr, "/ra/numorstr", NumOrStr);
+    macro_rules! reg_opaque {
+        ($f:ident, $path:expr) => {
+            reg!($f, "get", $path, {
+                let mut v = d(None, Some(SampleQ::ty()), None, None, "ok", None);
+                v["respOpaque"] = json!(true);
+                v
+            });
+        };
+    }
+    reg_opaque!(ra_ext, "/ra/ext");
+    reg_opaque!(ra_int, "/ra/int");
+    reg_opaque!(ra_adj, "/ra/adj");
+    reg_opaque!(ra_docenum, "/ra/docenum");
+    reg_body!(b_shape, "/b/shape", Shape);
+    reg_body!(b_sub, "/b/sub", Sub);
+    reg_body!(b_numorstr, "/b/numorstr", NumOrStr);
+    reg!(t_json_pb, "put", "/t/json/pb/{id}", d(p(), None, bj(), Some(Inner::ty()), "ok", None));
+    reg!(t_json_qb, "post", "/t/json/qb", d(None, q(), bj(), Some(Inner::ty()), "ok", None));
+    reg!(t_json_pqb, "put", "/t/json/pqb/{id}", d(p(), q(), bj(), Some(Inner::ty()), "ok", None));
+    reg!(t_form_pb, "put", "/t/form/pb/{id}", d(p(), None, bf(), Some(Form::ty()), "ok", None));
+    reg!(t_form_qb, "post", "/t/form/qb", d(None, q(), bf(), Some(Form::ty()), "ok", None));
+    reg!(t_form_pqb, "put", "/t/form/pqb/{id}", d(p(), q(), bf(), Some(Form::ty()), "ok", None));
+    reg!(t_multi_b, "post", "/t/multi/b", raw("multipart", None, None));
+    reg!(t_multi_pb, "put", "/t/multi/pb/{id}", raw("multipart", p(), None));
+    reg!(t_multi_qb, "post", "/t/multi/qb", raw("multipart", None, q()));
+    reg!(t_multi_pqb, "put", "/t/multi/pqb/{id}", raw("multipart", p(), q()));
+    reg!(t_bytes_b, "post", "/t/bytes/b", raw("bytes", None, None));
+    reg!(t_bytes_pb, "put", "/t/bytes/pb/{id}", raw("bytes", p(), None));
+    reg!(t_bytes_pqb, "put", "/t/bytes/pqb/{id}", raw("bytes", p(), q()));
     reg!(k_created, "post", "/k/created",
         d(None, None, Some((Inner::ty(), "json")), Some(Inner::ty()), "created", None));
     reg!(k_accepted, "post", "/k/accepted",
@@ -1027,6 +1285,20 @@ fn main() {
             let (ctype, body, body_json) = match &body_doc {
                 None => (None, None, None),
                 Some((ct, schema)) => {
+                    if ct == "multipart/form-data" {
+                        // the documented schema is an opaque binary string; the media type needs a boundary
+                        let n = r.below(3);
+                        let mut b = Vec::new();
+                        for i in 0..n {
+                            b.extend_from_slice(format!("--XBOUND\r\ncontent-disposition: form-data; name=\"f{}\"\r\n\r\nvalue {}\r\n", i, r.below(100)).as_bytes());
+                        }
+                        b.extend_from_slice(b"--XBOUND--\r\n");
+                        (Some("multipart/form-data; boundary=XBOUND".to_string()), Some(b), Some(json!("<binary>")))
+                    } else if ct == "application/octet-stream" {
+                        let n = r.below(40);
+                        let b: Vec<u8> = (0..n).map(|_| r.below(256) as u8).collect();
+                        (Some(ct.clone()), Some(b), Some(json!("<binary>")))
+                    } else {
                     let v = gen_value(&doc, schema, r, 3, false);
                     let bytes = if ct == "application/x-www-form-urlencoded" {
                         let m = v.as_object().cloned().unwrap_or_default();
@@ -1036,6 +1308,7 @@ fn main() {
                         serde_json::to_vec(&v).unwrap()
                     };
                     (Some(ct.clone()), Some(bytes), Some(v))
+                    }
                 }
             };
             Req { variant: "valid".into(), params: ps, omitted: None, ctype, body, body_json }
@@ -1067,7 +1340,8 @@ fn main() {
             }
         }
         if let Some((ct, schema)) = &body_doc {
-            for k in 0..4 {
+            let typed = ct == "application/json" || ct == "application/x-www-form-urlencoded";
+            for k in 0..(if typed { 4 } else { 0 }) {
                 let mut q = mk_valid(&mut r, None);
                 q.variant = "badbody".into();
                 if k == 3 {
@@ -1084,11 +1358,43 @@ fn main() {
                 }
                 reqs.push(q);
             }
-            for wrong in ["text/plain", "application/octet-stream", "application/x-www-form-urlencoded", "application/json", "multipart/form-data; boundary=x", "APPLICATION/JSON; charset=utf-8"] {
+            // other media types than the documented one
+            for wrong in ["text/plain", "application/octet-stream", "application/x-www-form-urlencoded", "application/json", "multipart/form-data; boundary=XBOUND", "multipart/form-data"] {
+                if wrong.split(';').next().unwrap() == ct && wrong != "multipart/form-data" {
+                    continue;
+                }
                 let mut q = mk_valid(&mut r, None);
                 q.variant = "ctype".into();
                 q.ctype = Some(wrong.to_string());
                 reqs.push(q);
+            }
+            // legal spellings of the documented media type: all must be accepted
+            let same: &[&str] = match ct.as_str() {
+                "application/json" => &[
+                    "application/json;charset=utf-8", "application/json;charset=UTF-8",
+                    "application/json; charset=utf-8", "application/json ;charset=utf-8",
+                    "Application/JSON", "APPLICATION/JSON;charset=utf-8", "application/json;",
+                ],
+                "application/x-www-form-urlencoded" => &[
+                    "application/x-www-form-urlencoded;charset=UTF-8",
+                    "application/x-www-form-urlencoded; charset=UTF-8",
+                    "Application/X-WWW-Form-Urlencoded",
+                    "APPLICATION/X-WWW-FORM-URLENCODED;charset=utf-8",
+                ],
+                "multipart/form-data" => &[
+                    "multipart/form-data;boundary=XBOUND", "Multipart/Form-Data; boundary=XBOUND",
+                    "multipart/form-data; charset=utf-8; boundary=\"XBOUND\"",
+                    "multipart/form-data; BOUNDARY=XBOUND",
+                ],
+                _ => &["application/octet-stream;x=y", "APPLICATION/OCTET-STREAM"],
+            };
+            for sp in same {
+                for _ in 0..2 {
+                    let mut q = mk_valid(&mut r, None);
+                    q.variant = "ctype-same".into();
+                    q.ctype = Some(sp.to_string());
+                    reqs.push(q);
+                }
             }
         }
 
@@ -1147,6 +1453,7 @@ fn main() {
                 "ctype": q.ctype,
                 "body": q.body_json,
                 "hasBody": q.body.is_some(),
+                "boundary": q.ctype.as_ref().map(|c| c.to_lowercase().contains("boundary=")).unwrap_or(false),
             });
             out.line(&format!(
                 "rq {} {} {} {} {} {} => {} {} {} {}",
